@@ -168,7 +168,7 @@ def real_invalid_trials(kind, obj, dump, plants):
             old = fo.read()
         good = old
         for label, plant, restore in plants:
-            for existing in (True, False, "stream"):
+            for existing in (True, False, "stream", "pathlike"):
                 old = good
                 if existing == "stream":
                     # the caller hands over the destination file itself, opened for update (not truncated): the last good copy
@@ -186,6 +186,8 @@ def real_invalid_trials(kind, obj, dump, plants):
                         if existing == "stream":
                             with open(dest, "r+") as stream:
                                 dump(stream)
+                        elif existing == "pathlike":
+                            dump(pathlib.Path(dest))    # the existing destination spelled as an os.PathLike (supported or not)
                         else:
                             dump(dest)
                     except (ValueError, TypeError) as exc:
@@ -197,7 +199,7 @@ def real_invalid_trials(kind, obj, dump, plants):
                 trials += 1
                 if raised is None:
                     continue            # whether the value must be refused is C06's question, not this property's
-                where = "%s real invalid value %s (%s) %s" % (kind, label, type(raised).__name__, {True: "existing", False: "absent"}.get(existing, "existing, handed over as an open stream"))
+                where = "%s real invalid value %s (%s) %s" % (kind, label, type(raised).__name__, {True: "existing", False: "absent", "pathlike": "existing, spelled as a pathlib.Path"}.get(existing, "existing, handed over as an open stream"))
                 if existing:
                     check(os.path.exists(dest), "destination-removed-by-failed-dump", "%s: the destination is gone" % where)
                     with open(dest, "rb") as fo:
@@ -206,7 +208,7 @@ def real_invalid_trials(kind, obj, dump, plants):
                 else:
                     check(not os.path.exists(dest), "file-created-by-failed-dump", "%s: a file was created" % where)
                 check(sorted(os.listdir(tmp)) == (["metadata"] if existing else []), "stray-file", "%s: %r" % (where, sorted(os.listdir(tmp))))
-                units.append("real:%s/%s" % (label, {True: "e", False: "a"}.get(existing, "s")))
+                units.append("real:%s/%s" % (label, {True: "e", False: "a", "pathlike": "p"}.get(existing, "s")))
     finally:
         shutil.rmtree(tmp, ignore_errors=True)
     return units, trials
